@@ -605,6 +605,16 @@ def lifecycle():
     reap = mreap.group(0) if mreap else ""
     emit_nat("uringOrphanCompletionGivesBufferBack", 1 if re.search(r"if let Some\(bid\) = cqueue::buffer_select\(cqe_flags\) \{\s*if let Some\(bm\) = worker\.buffer_manager\.as_ref\(\) \{\s*if let Err\(e\) = bm\.reprovide_buffer\(bid\)", reap) and "pool.release_buffer(send_buf_id)" in reap
              and re.search(r"if handler_fd_peeked == ORPHANED_OP_FD \{\s*reap_orphaned_completion\(", cqp) else 0)
+    # io_uring handler: when it closes its connection, and that exactly one RequestClose is issued for a descriptor
+    zh = strip_comments(src("core/src/io_uring_backend/zmtp_handler.rs"))
+    ml = strip_comments(src("core/src/io_uring_backend/worker/main_loop.rs"))
+    emit_nat("uringOneCloseRequestPerDescriptor", 1 if re.search(r"fn request_close\(&mut self, ops: &mut HandlerIoOps\) \{\s*if !self\.close_requested \{\s*self\.close_requested = true;\s*ops\.sqe_blueprints\.push\(HandlerSqeBlueprint::RequestClose\);", zh)
+             and zh.count("HandlerSqeBlueprint::RequestClose") == 1 else 0)
+    emit_nat("uringHandlerPollsTimers", 1 if re.search(r"let tick_out = self\.engine\.on_tick\(now\);", zh) and re.search(r"else if let Some\(deadline\) = self\.handshake_deadline \{\s*if now >= deadline \{", zh)
+             and re.search(r"AppAction::PeerError\(ZmqError::Timeout\)", zh) else 0)
+    emit_nat("uringCloseShutsTheSocketDown", 1 if re.search(r"HandlerSqeBlueprint::RequestClose => \{\s*unsafe \{\s*libc::shutdown\(fd, libc::SHUT_RDWR\);\s*\}\s*let mut entry = opcode::Close::new", cqp) else 0)
+    emit_nat("uringShutdownRequestNamesItsConnection", 1 if re.search(r"\.map_or\(false, \|h\| conn_token == 0 \|\| h\.io_config\(\)\.conn_token == conn_token\);\s*if !is_the_connection_meant \{", ml)
+             and re.search(r"conn_token: self\.conn_token,", zh) else 0)
     tc = strip_comments(src("core/src/transport/tcp.rs"))
     emit_nat("connecterAbortIsFinal", 1 if re.search(r"Connect aborted: shutdown by system event", src("core/src/transport/tcp.rs")) and 's.contains("shutdown by")' in tc else 0)
     mwait2 = re.search(r"async fn wait_for_retry_delay_internal\(.*?\n  \}\n", tc, re.S)
